@@ -512,9 +512,26 @@ def run_process(repo, spec, root):
     if hasattr(tempfile, '_name_sequence'):
         tempfile._name_sequence = _TempNames()
     signal.signal(signal.SIGALRM, _alarm)
-    signal.alarm(int(spec.get('alarm', 20)))
+    signal.alarm(int(spec.get('alarm', 60)))
     proc = Proc(repo, world, spec)
     obs = {'hang': False}
+    lines = set()
+    mon = getattr(sys, 'monitoring', None) if spec.get('cover') else None
+    if mon is not None:
+        prefix = os.path.join(repo.path, 'trees') + os.sep
+        script = os.path.join(repo.path, 'treetools')
+
+        def on_line(code, lineno):
+            fn = code.co_filename
+            if fn.startswith(prefix) or fn == script:
+                lines.add((os.path.basename(fn), lineno))
+            return mon.DISABLE
+        try:
+            mon.use_tool_id(mon.COVERAGE_ID, 'tsim')
+            mon.register_callback(mon.COVERAGE_ID, mon.events.LINE, on_line)
+            mon.set_events(mon.COVERAGE_ID, mon.events.LINE)
+        except Exception:
+            mon = None
     world.activate()
     try:
         try:
@@ -525,6 +542,13 @@ def run_process(repo, spec, root):
     finally:
         signal.alarm(0)
         world.deactivate()
+        if mon is not None:
+            try:
+                mon.set_events(mon.COVERAGE_ID, 0)
+            except Exception:
+                pass
+    if spec.get('cover'):
+        obs['lines'] = sorted(lines)
     # drop references to live generators/streams, as interpreter exit would
     recs = {}
     ids = []
